@@ -72,6 +72,12 @@ fn pos(r: &mut Rng) -> f64 { r.cad().abs() + 1e-3 }
 fn segs(r: &mut Rng) -> f64 { match r.below(4) { 0 => *r.pick(&[1.0, 2.0, 3.0, 4.0, 5.0, 6.0, 7.0, 49.0, 93.0]), 1 => r.range(3, 12) as f64, _ => r.range(1, 40) as f64 } }
 fn nsides(r: &mut Rng) -> f64 { match r.below(3) { 0 => *r.pick(&[3.0, 4.0, 5.0, 6.0, 7.0, 8.0, 11.0, 13.0]), _ => r.range(3, 40) as f64 } }
 
+/// a point at a short distance from `e` in a generic direction
+fn near(r: &mut Rng, e: &[f64]) -> Vec<f64> {
+    let len = *r.pick(&[0.003, 0.03, 0.09, 0.3]);
+    let dir = r.distinct(e.len()); let n = dir.iter().map(|x| x * x).sum::<f64>().sqrt();
+    e.iter().zip(dir.iter()).map(|(a, b)| a + b / n * len).collect()
+}
 pub fn gen_args(r: &mut Rng, op: i64) -> Vec<f64> {
     let d = |r: &mut Rng, n: usize| r.distinct(n);
     match op {
@@ -90,7 +96,11 @@ pub fn gen_args(r: &mut Rng, op: i64) -> Vec<f64> {
             let nadds = r.below(7) as usize; let closed = r.coin();
             let mut v = vec![nadds as f64, if closed { 1.0 } else { 0.0 }];
             v.extend(d(r, 8)); v.push(segs(r));
-            for _ in 0..nadds { v.push(pos(r)); v.extend(d(r, 4)); v.push(segs(r)); }
+            // one history in three has short end handles (control2 within 0.003 .. 0.3 of the knot): the next curve's
+            // first handle must still leave along end - control2
+            let short = r.below(3) == 0;
+            if short { let e = [v[8], v[9]]; let c = near(r, &e); v[6] = c[0]; v[7] = c[1]; }
+            for _ in 0..nadds { v.push(pos(r)); let mut ce = d(r, 4); if short && r.coin() { let c = near(r, &ce[2..4]); ce[0] = c[0]; ce[1] = c[1]; } v.extend(ce); v.push(segs(r)); }
             if closed { v.push(pos(r)); v.extend(d(r, 2)); v.push(pos(r)); v.push(segs(r)); }
             v
         }
@@ -100,7 +110,9 @@ pub fn gen_args(r: &mut Rng, op: i64) -> Vec<f64> {
             let nadds = r.below(6) as usize; let closed = r.coin();
             let mut v = vec![nadds as f64, if closed { 1.0 } else { 0.0 }];
             v.extend(d(r, 12)); v.push(segs(r));
-            for _ in 0..nadds { v.push(pos(r)); v.extend(d(r, 6)); v.push(segs(r)); }
+            let short = r.below(3) == 0;
+            if short { let e = [v[11], v[12], v[13]]; let c = near(r, &e); v[8] = c[0]; v[9] = c[1]; v[10] = c[2]; }
+            for _ in 0..nadds { v.push(pos(r)); let mut ce = d(r, 6); if short && r.coin() { let c = near(r, &ce[3..6]); ce[0] = c[0]; ce[1] = c[1]; ce[2] = c[2]; } v.extend(ce); v.push(segs(r)); }
             if closed { v.push(pos(r)); v.extend(d(r, 3)); v.push(pos(r)); v.push(segs(r)); }
             v
         }
